@@ -137,7 +137,7 @@ struct SeekRun {
   void page_bounds(int64_t p, int64_t &lo, int64_t &hi) {
     int l = link_for_seek(p); lo = g.start[l]; hi = p;
     for (int64_t gp : st.page_gp[l]) if (gp < p && gp > lo) lo = gp;
-    // Known finding D20 (open): when the page that ends at that boundary only completes a packet begun on an earlier page,
+    // Finding D20 (fixed in fc41172; the exclusion below is inert unless known_findings.json lists it as open again): when the page that ends at that boundary only completes a packet begun on an earlier page,
     // ov_pcm_seek_page falls back to a raw seek one page earlier and lands up to one more page boundary early.
     // While D20 is open the trigger region is excluded by construction: the lower bound moves two boundaries back (counted).
     if (kf_open("D20")) {
